@@ -1,4 +1,5 @@
 import BFL.Proofs.RaceTable
+import BFL.Proofs.RacePhase
 /-
 C10 — the control interface may be used from another thread without data races.
 
@@ -62,6 +63,15 @@ theorem lockset_complete (T : Table) (f : Nat) (h : ¬ FieldOK T f) :
     ∃ tr, WF tr ∧ Conforms T tr ∧ RaceOnField f tr :=
   Race.lockset_complete T f h
 
+/-- Thread creation and join order the phases: in a whole-program execution
+    `set-up ++ [spawn] ++ concurrent phase ++ [join] ++ tear-down` (set-up and tear-down executed by the
+    controller alone and *not* constrained by the table: constructors, destructors, user code) two
+    adjacent conflicting accesses always lie in the concurrent phase. -/
+theorem phase_adj (pre mid post : List Ev) (hpre : ∀ e ∈ pre, e.tid = .controller)
+    (hpost : ∀ e ∈ post, e.tid = .controller) {a b : Ev}
+    (h : Adj (program pre mid post) (.ev a) (.ev b)) (hc : conflict a b) : Adj mid a b :=
+  Race.phase_adj pre mid post hpre hpost h hc
+
 /-- race freedom of a table ⇔ discipline of every member -/
 theorem race_free_iff_disciplined (T : Table) : RaceFree T ↔ ∀ f, FieldOK T f :=
   Race.raceFree_iff T
@@ -108,6 +118,21 @@ theorem table_undisciplined_exact (f : Nat) : ¬ FieldOK table f ↔ f ∈ claim
 theorem race_free_lifecycle {tr : List Ev} (hwf : WF tr) (hc : Conforms table tr) :
     ∀ f ∈ table.fieldsOfClass lifecycleClass, ¬ RaceOnField f tr :=
   fun f hf => Race.lockset_sound table f (table_disciplined_lifecycle f hf) hwf hc
+
+/-- whole-program form: whatever the controller does before `boot()` creates the thread and after
+    `wait()` has joined it, no execution races on a member of `FilteringAlgorithm` -/
+theorem race_free_program_lifecycle (pre mid post : List Ev) (hpre : ∀ e ∈ pre, e.tid = .controller)
+    (hpost : ∀ e ∈ post, e.tid = .controller) (hwf : WF mid) (hc : Conforms table mid) :
+    ∀ f ∈ table.fieldsOfClass lifecycleClass, ¬ PRaceOnField f (program pre mid post) :=
+  fun f hf => Race.lockset_sound_program table f (table_disciplined_lifecycle f hf) pre mid post hpre hpost hwf hc
+
+/-- whole-program form of `race_free_partial` -/
+theorem race_free_program_partial (pre mid post : List Ev) (hpre : ∀ e ∈ pre, e.tid = .controller)
+    (hpost : ∀ e ∈ post, e.tid = .controller) (hwf : WF mid) (hc : Conforms table mid) (f : Nat)
+    (hr : PRaceOnField f (program pre mid post)) : f ∈ table.fieldIds skipFlags := by
+  apply Classical.byContradiction
+  intro hf
+  exact Race.lockset_sound_program table f (table_disciplined_partial f hf) pre mid post hpre hpost hwf hc hr
 
 /-- `race_free`, partial: any race of any interleaving is on one of the six skip flags -/
 theorem race_free_partial {tr : List Ev} (hwf : WF tr) (hc : Conforms table tr) (f : Nat)
